@@ -59,6 +59,7 @@ def cidrHas (c : Cidr) (ip : IP) : Bool :=
 def mvalForm (v : Str) : Option MVal → Bool
   | some (.str s) => strForm v s
   | some (.strs l) => l.any (strForm v)
+  | some .other => false   -- a claim that is a number / bool / object equals no string value
   | none => false
 
 def claim (req : Request) (path : List Str) : Option MVal := lookupMeta req jwtFilterName (jwtPayload :: path)
@@ -194,7 +195,13 @@ def expandPolicy (b : List Str) (p : Policy) : Policy := { p with rules := p.rul
 A field cannot be expressed on a filter chain when its attribute is HTTP-only and the chain is TCP,
 or when its map-style key cannot be read (`request.headers.x[y]`); a value cannot be expressed when
 it does not parse (CIDR, port).  An ALLOW rule with such a field or value matches nothing; a rule of
-any other action (DENY, AUDIT, CUSTOM) is enforced on its remaining conditions. -/
+any other action (DENY, AUDIT, CUSTOM) is enforced on its remaining conditions.
+
+Outside the clause: a `when` key that names NO attribute of the API at all (`unknown.key`,
+`source.ipx`).  Validation rejects it (so it is outside the property's quantifier); there is no
+condition to set aside, `whenHolds` is false and the rule matches nothing under EVERY action - which
+is also what the code does (`model.New` fails, the builder skips the rule): `unknown_key_rule_lost`.
+The unconditional theorems below (`compile_all_exact`) hold with this reading. -/
 
 /-- Attributes that exist only for HTTP requests. -/
 def Gen.httpOnly : Gen → Bool
@@ -289,31 +296,53 @@ def clause2 (tcp : Bool) (p : Policy) : Policy :=
   if p.action == .allow then { p with rules := p.rules.filter (ruleExpressible tcp p.ns) }
   else { p with rules := p.rules.map (remainingRule tcp p.ns) }
 
-/-- A policy applies to a workload (sidecar or gateway) iff it lives in the root namespace or in the
-    workload's namespace and: for a workload without the Gateway API gateway-name label, it has no
-    targetRefs and its selector (if any) is a subset of the workload's labels; for a Gateway API
-    gateway, either it has no targetRefs and its selector matches (never for a waypoint), or one of its
-    targetRefs names this Gateway (same namespace); for a waypoint also the Service / ServiceEntry the
-    chain is built for (policy in the service's namespace) or the waypoint GatewayClass (policy in the
-    root namespace). -/
+/-! ## Which policies apply to a workload
+
+Written from the API documentation of `AuthorizationPolicy` (`selector`, `targetRefs`), independently
+of the control flow of `ShouldAttachPolicy` (`Model.shouldAttach`); `applies_eq_shouldAttach` /
+`selectPolicies_eq_applies` (Theorems.lean) prove the two equal.
+
+* A policy is considered for a workload when it lives in the mesh root namespace, in the workload's
+  namespace or - for the chain a waypoint builds for a service - in that service's namespace.
+* Without `targetRefs` the `selector` decides (no selector = every workload of the scope).  Workloads
+  that are Gateway API gateways (label `gateway.networking.k8s.io/gateway-name`) take selector
+  policies only while the selector-based gateway policy feature is on; "waypoint proxies are required
+  to use targetRefs: selector policies are ignored".
+* With `targetRefs` (or the legacy single `targetRef`) the policy applies only to Gateway API
+  workloads, and only when one reference designates the workload:
+  `Gateway` <name>        - the workload is that Gateway, policy in the Gateway's namespace; "cross
+                            namespace references are not supported": a reference naming another
+                            namespace designates nothing;
+  `GatewayClass` istio-waypoint - every waypoint, policy in the root namespace;
+  `Service` <name>        - the waypoint chain built for that Kubernetes Service, policy in the
+                            service's namespace;
+  `ServiceEntry` <name>   - likewise for the service of that ServiceEntry (External registry). -/
+
+def nsInScope (w : Workload) (p : Policy) : Bool :=
+  p.ns == w.rootNs || p.ns == w.ns || w.service.any fun s => p.ns == s.ns
+
+def isGatewayAPI (w : Workload) : Bool := (lookupLabel gatewayNameLabel w.labels).isSome
+
+def selectorMatches (w : Workload) (p : Policy) : Bool := p.selector.all fun kv => w.labels.contains kv
+
+/-- One `targetRefs` entry designates the workload. -/
+def refDesignates (w : Workload) (p : Policy) (ref : Str × Str × Str × Str) : Bool :=
+  if refIs ref gatewayGroup "Gateway".toList then
+    lookupLabel gatewayNameLabel w.labels == some ref.2.2.1 && p.ns == w.ns &&
+      (ref.2.2.2.isEmpty || ref.2.2.2 == w.ns)
+  else if refIs ref gatewayGroup "GatewayClass".toList then
+    w.waypoint && ref.2.2.1 == waypointClassName && p.ns == w.rootNs
+  else if refIs ref [] "Service".toList then
+    w.waypoint && w.service.any fun s => s.k8s && s.policyName == ref.2.2.1 && s.ns == p.ns
+  else if refIs ref istioNetworkingGroup "ServiceEntry".toList then
+    w.waypoint && w.service.any fun s => !s.k8s && s.policyName == ref.2.2.1 && s.ns == p.ns
+  else false
+
 def applies (w : Workload) (p : Policy) : Bool :=
-  (p.ns == w.rootNs || p.ns == w.ns || w.service.any fun s => p.ns == s.2.1) &&
-  (match lookupLabel gatewayNameLabel w.labels with
-   | none => p.targetRefs.isEmpty && p.selector.all fun kv => w.labels.contains kv
-   | some gw =>
-     if p.targetRefs.isEmpty then !w.waypoint && p.selector.all fun kv => w.labels.contains kv
-     else p.targetRefs.any fun ref =>
-       -- a waypoint enforces the policies attached to the Service / ServiceEntry it serves ...
-       (w.waypoint && refIs ref [] "Service".toList &&
-         w.service.any fun s => ref.2.2.1 == s.1 && p.ns == s.2.1 && s.2.2) ||
-       (w.waypoint && refIs ref istioNetworkingGroup "ServiceEntry".toList &&
-         w.service.any fun s => ref.2.2.1 == s.1 && p.ns == s.2.1 && !s.2.2) ||
-       -- ... the root-namespace policies attached to the waypoint GatewayClass ...
-       (p.ns == w.rootNs && w.waypoint && refIs ref gatewayGroup "GatewayClass".toList &&
-         ref.2.2.1 == waypointClassName) ||
-       -- ... and, like every Gateway API gateway, the policies attached to its own Gateway
-       (w.ns == p.ns && (ref.2.2.2.isEmpty || ref.2.2.2 == w.ns) &&
-         refIs ref gatewayGroup "Gateway".toList && ref.2.2.1 == gw))
+  nsInScope w p &&
+  (if p.refs.isEmpty then
+     selectorMatches w p && (!isGatewayAPI w || (!w.waypoint && w.selectorGatewayPolicy))
+   else isGatewayAPI w && p.refs.any (refDesignates w p))
 
 /-- Policies that are enforced with the given action (dry-run policies are not enforced). -/
 def enforced (a : Action) (ps : List Policy) : List Policy :=
